@@ -215,6 +215,9 @@ func runOne(t *testing.T, sc *Scenario, prop string, seed uint64, run int, force
 		simrt.DialHook = nil
 		simrt.CreateHook = nil
 		simrt.OpenHook = nil
+		if rc.Viol == nil && (res.End == simrt.EndClean || res.End == simrt.EndStuck || res.End == simrt.EndDeadlock) {
+			rc.checkHeld()
+		}
 		restoreBufs()
 		if rc.Viol == nil && sc.Post != nil && res.End != simrt.EndAbort && res.End != simrt.EndPanic {
 			simSnapshotTasks = sim.Tasks()
